@@ -489,7 +489,152 @@ def r10_7(chk):
     chk.floor("R10.7", 6, "named constructor parameters in the substitution-model hierarchy")
 
 
+SNAPSHOT_MODULE = "core/location.py"
+# element type of the containers the module iterates over (repo naming)
+ELEMENT_TYPES = {"spans": "Span"}
+CTOR_LIKE = ("__init__", "_new_init", "__post_init__", "__setstate__", "__new__", "from_rich_dict", "from_spans", "from_locations", "from_aligned_segments")
+
+
+def _snapshot_keys(ci):
+    """constructor parameters captured by the `_serialisable` snapshot of class ci (None when it has none)"""
+    for c in ci.mro():
+        init = c.methods.get("__init__")
+        if init is not None and any(isinstance(x, ast.Attribute) and x.attr == "_serialisable" and isinstance(x.ctx, ast.Store) for x in ast.walk(init)):
+            return [a.arg for a in init.args.args[1:] + init.args.kwonlyargs]
+    # dataclass style: `_serialisable` is a declared field filled by a shared __new__; the init fields are the keys
+    if any(isinstance(st, ast.AnnAssign) and isinstance(st.target, ast.Name) and st.target.id == "_serialisable" for c in ci.mro() for st in c.node.body):
+        fields = []
+        for c in ci.mro():
+            for st in c.node.body:
+                if isinstance(st, ast.AnnAssign) and isinstance(st.target, ast.Name) and not st.target.id.startswith("_"):
+                    init_false = isinstance(st.value, ast.Call) and any(kw.arg == "init" and isinstance(kw.value, ast.Constant) and kw.value.value is False for kw in st.value.keywords)
+                    if not init_false and "InitVar" not in norm(st.annotation):
+                        fields.append(st.target.id)
+        return fields
+    return None
+
+
+def r10_8(chk):
+    chk.rule("R10.8", "a constructor-argument snapshot is only as good as the object is immutable: for every class of core/location.py whose to_rich_dict starts from `self._serialisable` (taken in __init__), each snapshot key that some non-constructor code stores on an instance -- `self.k = ...` in a method, `<copy of self>.k = ...`, `span.k -= ...` on elements of `.spans` -- is overwritten in to_rich_dict from the live attribute (or the same code updates the snapshot); otherwise the JSON form describes the object as it was constructed, not as it is")
+    m = chk.repo.module(SNAPSHOT_MODULE)
+    n = 0
+    classes = {c.name: c for c in m.classes.values()}
+    for cname, ci in sorted(classes.items()):
+        r = ci.resolve("to_rich_dict")
+        if r is None or not isinstance(r[1], ast.FunctionDef):
+            continue
+        trd = r[1]
+        if not any(isinstance(x, ast.Attribute) and x.attr == "_serialisable" for x in ast.walk(trd)):
+            continue
+        keys = _snapshot_keys(ci)
+        if not keys:
+            continue
+        # keys that to_rich_dict refreshes from the live object
+        live = set()
+        for x in ast.walk(trd):
+            if isinstance(x, ast.Assign):
+                for t in x.targets:
+                    if isinstance(t, ast.Subscript) and isinstance(t.slice, ast.Constant) and t.slice.value in keys and any(isinstance(y, ast.Attribute) and isinstance(y.value, ast.Name) and y.value.id == "self" and y.attr != "_serialisable" for y in ast.walk(x.value)):
+                        live.add(t.slice.value)
+            if isinstance(x, ast.Call) and isinstance(x.func, ast.Attribute) and x.func.attr == "update":
+                for kw in x.keywords:
+                    if kw.arg in keys and any(isinstance(y, ast.Attribute) and isinstance(y.value, ast.Name) and y.value.id == "self" for y in ast.walk(kw.value)):
+                        live.add(kw.arg)
+        # stores to snapshot keys outside constructors
+        stores = []  # (key, node, where)
+        own_names = {c.name for c in ci.mro()} | {c.name for c in classes.values() if ci in c.mro()}
+        for q, fn in m.all_functions():
+            owner = q.split(".")[0] if "." in q else None
+            meth = q.split(".")[-1]
+            typed = {}
+            if owner in own_names:
+                typed["self"] = True
+            for st in walk_no_nested(fn):
+                if isinstance(st, ast.Assign) and len(st.targets) == 1 and isinstance(st.targets[0], ast.Name) and isinstance(st.value, ast.Call):
+                    cn = norm(st.value.func)
+                    a0 = norm(st.value.args[0]) if st.value.args else ""
+                    if owner in own_names and (cn in ("copy.copy", "copy.deepcopy", "copy", "deepcopy") and a0 == "self" or cn in ("self.__class__", "type(self)", cname)):
+                        typed[st.targets[0].id] = "copy"
+                if isinstance(st, (ast.For, ast.comprehension)) and isinstance(st.target, ast.Name) and isinstance(st.iter, ast.Attribute) and ELEMENT_TYPES.get(st.iter.attr) in own_names:
+                    typed[st.target.id] = True
+            if owner in own_names and meth in CTOR_LIKE:
+                # the constructor itself (and what it delegates to) defines the snapshot
+                typed.pop("self", None)
+            for st in walk_no_nested(fn):
+                tgts = st.targets if isinstance(st, ast.Assign) else [st.target] if isinstance(st, (ast.AugAssign, ast.AnnAssign)) else []
+                for t in tgts:
+                    if isinstance(t, ast.Attribute) and isinstance(t.value, ast.Name) and t.value.id in typed and t.attr in keys:
+                        if typed[t.value.id] == "copy" and meth in CTOR_LIKE:
+                            continue
+                        # the same function refreshing the snapshot makes the store coherent
+                        fresh = any(isinstance(y, ast.Subscript) and isinstance(y.ctx, ast.Store) and isinstance(y.value, ast.Attribute) and y.value.attr == "_serialisable" and norm(y.value.value) == t.value.id and isinstance(y.slice, ast.Constant) and y.slice.value == t.attr for y in ast.walk(fn))
+                        if not fresh:
+                            stores.append((t.attr, st, q))
+        by_key = {}
+        for k_, st, q in stores:
+            by_key.setdefault(k_, []).append((st, q))
+        for k_ in keys:
+            n += 1
+            kk = key(m, f"{cname}.to_rich_dict", f"snapshot key {k_} is current")
+            if k_ in by_key and k_ not in live:
+                st, q = by_key[k_][0]
+                chk.violation("R10.8", kk, m.loc(st), f"`{norm(st)}` (in {q}) changes `{k_}` of a {cname} after construction, but {cname}.to_rich_dict reports the constructor-time snapshot `self._serialisable['{k_}']` ({len(by_key[k_])} such store(s)): the rich dict / JSON of the object describes a state it no longer has")
+            else:
+                chk.ok("R10.8", kk, m.loc(trd), "refreshed from the live attribute" if k_ in live else "never stored after construction", nontrivial=k_ in by_key)
+    chk.floor("R10.8", 10, "snapshot keys of Span / map classes")
+
+
+def r10_9(chk):
+    chk.rule("R10.9", "the JSON form of a DistanceMatrix is the whole matrix in its own order: (a) DistanceMatrix.to_rich_dict lists every key of self.to_dict() -- one generator over the dict, no filter, no triangular enumeration (the reader fills a missing (b, a) from (a, b), so dropping one direction silently symmetrises an asymmetric matrix); (b) the reader rebuilds the matrix with the order of names of the original -- it does not construct from an order-free pair dict alone, for which convert2Ddistance falls back to sorted(names)")
+    m = chk.repo.module("evolve/fast_distance.py")
+    fn = m.func("DistanceMatrix.to_rich_dict")
+    src = [st for st in walk_no_nested(fn) if isinstance(st, ast.Assign) and isinstance(st.value, ast.Call) and norm(st.value.func) == "self.to_dict" and isinstance(st.targets[0], ast.Name)]
+    if not src:
+        raise AnalysisError("DistanceMatrix.to_rich_dict: self.to_dict() not found")
+    dv = src[0].targets[0].id
+    comps = [c for c in walk_no_nested(fn) if isinstance(c, (ast.ListComp, ast.GeneratorExp)) and any(isinstance(x, ast.Name) and x.id == dv for x in ast.walk(c))]
+    k = key(m, "DistanceMatrix.to_rich_dict", "every cell is listed")
+    if not comps:
+        chk.unresolved("R10.9", k, m.loc(fn), "the payload is not built by a comprehension over the dict")
+    else:
+        c = comps[0]
+        whole = len(c.generators) == 1 and not c.generators[0].ifs and norm(c.generators[0].iter) in (dv, f"{dv}.items()", f"{dv}.keys()")
+        chk.decide(whole, "R10.9", k, m.loc(c), f"one unfiltered generator over `{dv}`", f"`{norm(c)[:90]}` does not enumerate every key of `{dv}`: only one member of each (a, b)/(b, a) pair is stored and the reader mirrors it, so dm['a','b'] = 0.25 on a symmetric matrix comes back with dm['b','a'] == 0.25 as well")
+    dm = chk.repo.module("util/deserialise.py")
+    rd = dm.func("deserialise_tabular")
+    # the else branch that handles DistanceMatrix: the constructor call klass(**data)
+    calls = [c for c in walk_no_nested(rd) if isinstance(c, ast.Call) and isinstance(c.func, ast.Name) and c.func.id == "klass" and any(kw.arg is None for kw in c.keywords)]
+    branch = [c for c in calls if any(isinstance(st, ast.Assign) and norm(st.targets[0]) == "data['dists']" for st in walk_no_nested(rd))]
+    k2 = key(dm, "deserialise_tabular", "DistanceMatrix names keep their order")
+    ordered = any(isinstance(x, ast.Constant) and x.value in ("names", "header", "row_order") for x in ast.walk(rd) if True) and any("from_array_names" in norm(c.func) or any(kw.arg in ("header", "names", "row_order") for kw in c.keywords) for c in walk_no_nested(rd) if isinstance(c, ast.Call))
+    wr_names = any(isinstance(x, ast.keyword) and x.arg in ("names", "header") for x in ast.walk(fn)) or any(isinstance(x, ast.Constant) and x.value in ("names", "header") for x in ast.walk(fn))
+    chk.decide(ordered and wr_names, "R10.9", k2, dm.loc(branch[-1] if branch else rd), "the order of names is written and restored", "DistanceMatrix.to_rich_dict carries no order of names and deserialise_tabular builds the matrix from a pair-keyed dict, for which the names are sorted: from_array_names(..., ['z','b','a']) comes back with names ['a','b','z'] and permuted array rows")
+    chk.floor("R10.9", 2, "writer payload and reader order")
+
+
+def r10_10(chk):
+    chk.rule("R10.10", "sibling agreement of the new-style alphabet serialisers: for each alphabet class of core/new_alphabet.py that has a to_rich_dict, every named constructor parameter (__new__/__init__) is a key of the dict it writes -- CharAlphabet and KmerAlphabet write gap and missing; a class that leaves one out comes back without it (a codon alphabet with a gap state came back with gap_char None)")
+    m = chk.repo.module("core/new_alphabet.py")
+    n = 0
+    for cname, ci in sorted(m.classes.items()):
+        trd = ci.methods.get("to_rich_dict")
+        if not isinstance(trd, ast.FunctionDef) or not any(isinstance(x, ast.Dict) for x in ast.walk(trd)):
+            continue
+        ctor = ci.methods.get("__new__") or ci.methods.get("__init__")
+        if ctor is None:
+            continue
+        params = [a.arg for a in ctor.args.args[1:] + ctor.args.kwonlyargs]
+        keys = {kx.value for d_ in ast.walk(trd) if isinstance(d_, ast.Dict) for kx in d_.keys if isinstance(kx, ast.Constant)}
+        for p_ in params:
+            n += 1
+            chk.decide(p_ in keys, "R10.10", key(m, f"{cname}.to_rich_dict", f"constructor parameter {p_} is written"), m.loc(trd), "key present", f"{cname}({', '.join(params)}) but to_rich_dict writes only {sorted(keys - {'type', 'version'})}: `{p_}` is lost in the rich dict / JSON round trip")
+    chk.floor("R10.10", 8, "parameters of CharAlphabet, KmerAlphabet and CodonAlphabet")
+
+
 def run(chk):
+    r10_10(chk)
+    r10_9(chk)
+    r10_8(chk)
     r10_7(chk)
     r10_6(chk)
     r10_1(chk)
